@@ -123,7 +123,10 @@ Check == idx > 0 =>
                      pool |-> pname, adms |-> adms]
   IN /\ Emit => PrintT("CASE " \o ToJson(case))
      /\ Named(\A c \in comps : c.ok, "AllParse")
-     /\ Named(\A c \in comps : Skel(c.n) = ExpectedSkel(inst), "GroupsByTable")
+     \* (under the reading that gives a unary sign the power of a multiplicative
+     \* operator, a sign in the middle takes the rest of the product as its operand;
+     \* the table rule is about the reading where prefixes bind tightest)
+     /\ Named(\A m \in Modes(ts) : (~m.sg \/ (inst.pf[2] \in {1, 2} /\ inst.pf[3] \in {1, 2})) => Skel(Compile(ts, m).n) = ExpectedSkel(inst), "GroupsByTable")
      /\ Named(UnaryOnLeaves(cu.n), "UnaryTighterThanBinary")
      /\ Named(\A c \in comps : LET q == Compile(FullParen(c.n), DefaultMode) IN q.ok /\ q.n = c.n, "ParenNeutral")
 =============================================================================
